@@ -68,7 +68,7 @@ if os.path.exists(mp):
     out.append(open(mp).read().split("\n\n", 2)[-1])
 hp = os.path.join(ROOT, "seeded", "_harmless", "RESULT.txt")
 out.append("\n### 0.4 False-alarm tests\n")
-out.append("* Seeds: `lib/seed_sweep.sh` runs every quick check under several `VERIF_SEED`s on the unchanged tree (seeds 1–3, 5, 6, 8–10 and 12–14 over all twenty checks after the last change to any driver, earlier 4, 7, 11, and per property up to 14 seeds by its owner); checks whose verdict depended on the seed or on machine load were repaired (C20: wall-clock deadlines and goroutine-quiescence heuristics in the filter-API histories gave alarms when four checks ran at once: every 'did not happen' verdict now needs a 150 s wait plus scheduling-independent evidence, otherwise the case is skipped and counted; C11: the thorough tier met a removed duplicate validator sharing the proposer's consensus key; C12: an account number drawn by x/bank for a fresh ERC-20 recipient was read as the known finding's trace; C08: downstream effects of the known trace defect on other senders were classified as new). The thorough tier of all twenty checks passes on the unchanged tree.")
+out.append("* Seeds: `lib/seed_sweep.sh` runs every quick check under several `VERIF_SEED`s on the unchanged tree (seeds 1–3, 5, 6, 8–10 and 12–14 over all twenty checks after the last change to any driver, earlier 4, 7, 11, and per property up to 14 seeds by its owner); checks whose verdict depended on the seed or on machine load were repaired (C20: wall-clock deadlines and goroutine-quiescence heuristics in the filter-API histories gave alarms when four checks ran at once: every 'did not happen' verdict now needs a 150 s wait plus scheduling-independent evidence, otherwise the case is skipped and counted; C11: the thorough tier met a removed duplicate validator sharing the proposer's consensus key; C12: an account number drawn by x/bank for a fresh ERC-20 recipient was read as the known finding's trace; C08: downstream effects of the known trace defect on other senders were classified as new). The thorough tier of all twenty checks passes on the unchanged tree. After the last generator changes (wide closing block of the `blocks` driver, repeated addresses in access-list tuples of `gethdiff`) the quick tier of all twenty checks (seed 1), C02/C13 under seed 2, C04 under seed 3, C01-C03 under seed 17 with ten other builds loading the machine, and the thorough tier of C02 and C13 pass on the unchanged tree; a compile of the harness that loses a race on `go.mod` against a concurrently running check is retried instead of being read as a broken correspondence.")
 if os.path.exists(hp):
     lines = [l for l in open(hp).read().strip().split("\n") if l]
     ok = sum(1 for l in lines if " exit 0 0v" in l)
